@@ -698,12 +698,14 @@ dm!(WRenko, Renko, C, Renko, no, CO);
 
 /// largest valid length in the default build
 pub const MAXL: u64 = 254;
+/// kinds without a window of the full length accept PeriodType::MAX itself (u8: 255)
+pub const MAXP: u64 = 255;
 
 pub fn methods() -> Vec<MDesc> {
 	vec![
 		md!(WSma, "SMA", V, L, true, Arith, Accum, 1, MAXL, false),
 		md!(WWma, "WMA", V, L, true, Arith, Nested, 1, MAXL, false),
-		md!(WSwma, "SWMA", V, L, true, Arith, Nested, 1, MAXL, false),
+		md!(WSwma, "SWMA", V, L, true, Arith, Nested, 1, MAXP, false),
 		md!(WTrima, "TRIMA", V, L, true, Arith, Accum, 1, MAXL, false),
 		md!(WHma, "HMA", V, L, true, Arith, Nested, 2, MAXL, false),
 		md!(WLinReg, "LinReg", V, L, true, Arith, Nested, 2, MAXL, false),
@@ -720,16 +722,16 @@ pub fn methods() -> Vec<MDesc> {
 		md!(WCci, "CCI", V, L, false, Arith, Accum, 1, MAXL, false),
 		md!(WLinVol, "LinearVolatility", V, L, true, Arith, Accum, 1, MAXL, false),
 		md!(WAdi, "ADI", C, L, true, Arith, Accum, 0, MAXL, true),
-		md!(WEma, "EMA", V, L, true, Arith, Contraction, 1, MAXL, false),
-		md!(WDma, "DMA", V, L, true, Arith, Contraction, 1, MAXL, false),
-		md!(WTma, "TMA", V, L, true, Arith, Contraction, 1, MAXL, false),
-		md!(WDema, "DEMA", V, L, true, Arith, Contraction, 1, MAXL, false),
-		md!(WTema, "TEMA", V, L, true, Arith, Contraction, 1, MAXL, false),
-		md!(WRma, "RMA", V, L, true, Arith, Contraction, 1, MAXL, false),
+		md!(WEma, "EMA", V, L, true, Arith, Contraction, 1, MAXP, false),
+		md!(WDma, "DMA", V, L, true, Arith, Contraction, 1, MAXP, false),
+		md!(WTma, "TMA", V, L, true, Arith, Contraction, 1, MAXP, false),
+		md!(WDema, "DEMA", V, L, true, Arith, Contraction, 1, MAXP, false),
+		md!(WTema, "TEMA", V, L, true, Arith, Contraction, 1, MAXP, false),
+		md!(WRma, "RMA", V, L, true, Arith, Contraction, 1, MAXP, false),
 		md!(WWsma, "WSMA", V, L, true, Arith, Contraction, 1, 127, false),
 		md!(WSmm, "SMM", V, L, true, Exact, Select, 1, MAXL, false),
 		md!(WVidya, "Vidya", V, L, true, Arith, Accum, 1, MAXL, false),
-		md!(WTsi, "TSI", V, LL, true, Arith, Contraction, 1, MAXL, false),
+		md!(WTsi, "TSI", V, LL, true, Arith, Contraction, 1, MAXP, false),
 		md!(WTr, "TR", C, U, false, Arith, Direct, 0, 0, false),
 		md!(WHeikin, "HeikinAshi", C, U, false, Arith, Contraction, 0, 0, false),
 		md!(WHighest, "Highest", V, L, true, Exact, Select, 1, MAXL, false),
